@@ -32,6 +32,12 @@ PROPS = {
     "C13": dict(module="MRB.Props.C13", level="translation_validation", profiles=[prof("all", 800), prof("own", 300)],
                 also_tags=["C01", "C04", "C05", "C06", "C07", "C08", "C09", "C11", "C12", "C18"],
                 gen_items=["concAcc", "localAcc", "adetGoBack", "adetAdvance", "adetSync"], trusted=SEQ_TRUST),
+    "C14": dict(module="MRB.Props.C14", level="proof",
+                profiles=[prof("async", 400, features=["async"], binary="asyncdiff"), prof("asyncown", 300, features=["async"], binary="asyncdiff")],
+                gen_items=["asyncDelegation"], trusted=SEQ_TRUST + ["Rust's Future/Waker machinery; futures are polled by hand with a counting waker"]),
+    "C15": dict(module="MRB.Props.C15", level="proof",
+                profiles=[prof("async", 400, features=["async"], binary="asyncdiff")],
+                gen_items=["sendSync"], trusted=SEQ_TRUST + ["wake-ups are observed through the waker passed to poll"]),
     "C16": dict(module="MRB.Props.C16", level="proof", profiles=[], engines=["c16"], gen_items=["sendSync"],
                 trusted=["rustc's trait solver is the ground truth for Send/Sync; the auto-trait rule is modelled over the finite universe wrapper x role x buffer kind x (item Send?, item Sync?)"],
                 explanation="decide over the whole finite universe from the regenerated impl table + rustc probes"),
